@@ -21,6 +21,8 @@ pub enum POp {
     Api(Op),
     /// an outsider deleting a published cache file (path relative to the write dir)
     Unlink(String),
+    /// time passes (seconds) while the other participants are suspended
+    ClockJump(i64),
 }
 
 impl POp {
@@ -28,6 +30,7 @@ impl POp {
         match self {
             POp::Api(o) => o.label(),
             POp::Unlink(p) => format!("unlink({})", p),
+            POp::ClockJump(s) => format!("clock_jump({}s)", s),
         }
     }
 }
@@ -118,6 +121,7 @@ struct SchedState {
     pending: Vec<Option<Ev>>,
     grant: Option<usize>,
     free_run: bool,
+    runaway: bool,
     op_events: Vec<u64>,
 }
 
@@ -148,9 +152,11 @@ impl Controller for Scheduler {
             return Action::Proceed;
         }
         g.op_events[tid] += 1;
-        if g.op_events[tid] > self.event_budget {
-            // livelock guard: stop controlling, let everything drain
+        if g.op_events[tid] > self.event_budget && !g.free_run {
+            // livelock guard: stop controlling and fail every further call of this execution's participants
             g.free_run = true;
+            g.runaway = true;
+            shim::retire_generation();
             self.cv.notify_all();
         }
         if g.free_run || !is_scheduling_point(ev) {
@@ -195,6 +201,9 @@ impl Scheduler {
         g.op_events[tid] = 0;
     }
 }
+
+/// Participant threads abandoned as zombies so far in this process.
+pub static LEAKED: std::sync::atomic::AtomicU64 = std::sync::atomic::AtomicU64::new(0);
 
 pub struct RunOpts {
     pub invariant: Option<Invariant>,
@@ -396,6 +405,7 @@ pub fn run_schedule(prog: &Program, prefix: &[usize], opts: RunOpts) -> Executio
             pending: vec![None; n],
             grant: None,
             free_run: false,
+            runaway: false,
             op_events: vec![0; n],
         }),
         cv: Condvar::new(),
@@ -440,6 +450,10 @@ pub fn run_schedule(prog: &Program, prefix: &[usize], opts: RunOpts) -> Executio
                     let begin = shim::trace_len() as u64;
                     let outcome = match op {
                         POp::Api(o) => ops::exec(&cache, &dirs, o, &Default::default()),
+                        POp::ClockJump(secs) => {
+                            shim::clock_jump(secs * 1_000_000_000);
+                            Outcome { res: Res::Unit, judge: vec![], populate_calls: 0, populate_old: vec![], handle: None, source: None }
+                        }
                         POp::Unlink(rel) => {
                             let r = std::fs::remove_file(dirs.write.join(rel));
                             Outcome {
@@ -557,8 +571,38 @@ pub fn run_schedule(prog: &Program, prefix: &[usize], opts: RunOpts) -> Executio
         g.grant = Some(chosen);
         sched.cv.notify_all();
     }
-    for h in joins {
-        let _ = h.join();
+    // wait for the participants; abandon (as zombies) those that do not come back
+    {
+        let mut g = sched.st.lock().unwrap();
+        let deadline = std::time::Instant::now() + Duration::from_secs(5);
+        while g.state.iter().any(|s| *s != TState::Finished) && std::time::Instant::now() < deadline {
+            let (ng, _) = sched.cv.wait_timeout(g, Duration::from_millis(100)).unwrap();
+            g = ng;
+        }
+        if g.runaway {
+            hang = true;
+        }
+        if g.state.iter().any(|s| *s != TState::Finished) {
+            hang = true;
+            g.free_run = true;
+            shim::retire_generation();
+            sched.cv.notify_all();
+            let deadline = std::time::Instant::now() + Duration::from_secs(3);
+            while g.state.iter().any(|s| *s != TState::Finished) && std::time::Instant::now() < deadline {
+                let (ng, _) = sched.cv.wait_timeout(g, Duration::from_millis(100)).unwrap();
+                g = ng;
+            }
+        }
+        let finished: Vec<bool> = g.state.iter().map(|s| *s == TState::Finished).collect();
+        drop(g);
+        for (i, h) in joins.into_iter().enumerate() {
+            if finished[i] {
+                let _ = h.join();
+            } else {
+                LEAKED.fetch_add(1, std::sync::atomic::Ordering::SeqCst);
+                drop(h); // detached zombie
+            }
+        }
     }
     shim::set_controller(None);
     let trace = shim::take_trace();
@@ -664,6 +708,7 @@ pub struct ExploreStats {
     pub by_preemptions: BTreeMap<usize, u64>,
     pub sleep_blocked: u64,
     pub solo_suffixes: u64,
+    pub hangs: u64,
 }
 
 /// A node of the exploration tree: the choice prefix to replay, and (sleep-set mode) the
@@ -770,6 +815,9 @@ fn run_item(
         o.sleep = Some(item.sleep.clone());
     }
     let x = run_schedule(prog, &item.prefix, o);
+    if x.hang {
+        stats.hangs += 1;
+    }
     if x.sleep_blocked {
         stats.sleep_blocked += 1;
     } else {
@@ -794,7 +842,7 @@ pub fn expand_frontier(
 ) -> Vec<Item> {
     let mut queue: std::collections::VecDeque<Item> = std::collections::VecDeque::new();
     queue.push_back(Item { prefix: vec![], sleep: BTreeSet::new() });
-    while queue.len() < split {
+    while queue.len() < split && stats.hangs < 3 {
         let item = match queue.pop_front() {
             Some(i) => i,
             None => break,
@@ -821,7 +869,8 @@ pub fn explore_items(
     let mut stack = items;
     stack.reverse();
     while let Some(item) = stack.pop() {
-        if stats.executions >= cap {
+        if stats.executions >= cap || stats.hangs >= 3 {
+            // (a program that hangs is reported; there is no point in timing out on every schedule)
             return false;
         }
         let x = run_item(prog, search, &item, mk_opts, stats, check);
@@ -850,7 +899,7 @@ pub fn items_from_json(v: &Value) -> Vec<Item> {
 }
 
 pub fn new_stats() -> ExploreStats {
-    ExploreStats { executions: 0, max_events: 0, max_points: 0, by_preemptions: BTreeMap::new(), sleep_blocked: 0, solo_suffixes: 0 }
+    ExploreStats { executions: 0, max_events: 0, max_points: 0, by_preemptions: BTreeMap::new(), sleep_blocked: 0, solo_suffixes: 0, hangs: 0 }
 }
 
 pub fn add_stats(rep: &mut Report, prog: &Program, stats: &ExploreStats, complete: bool, mode: &str) {
